@@ -231,13 +231,17 @@ def run_rebuild(case):
                "metas_unchanged": True, "outside_ops": [], "outside_changed": [], "denied": [], "runs": 1,
                "present_after": 0, "ntorrents": len(trees), "stream_order": []}
         # 1. original payloads (only to create the metafiles from), then removed
-        mdir = os.path.join(sbx, "metas")
+        # (odd_metas: the metafile directory and the metafiles carry names with pattern characters / a leading dot)
+        mname = "queue [done] *?" if case.get("odd_metas") else "metas"
+        mdir = os.path.join(sbx, mname)
         os.makedirs(mdir)
         mpaths = []
         for ti, tree in enumerate(trees):
             proot = alpha.materialize(tree, os.path.join(sbx, "orig%d" % ti))
             # (the second metafile of a batch carries an upper-case extension)
             mpath = os.path.join(mdir, "t%d.%s" % (ti, "TORRENT" if ti == 1 else "torrent"))
+            if case.get("odd_metas"):
+                mpath = os.path.join(mdir, (".t%d.torrent", "t[%d].TORRENT", "-t*%d?.torrent")[ti % 3] % ti)
             sub = {k: v2 for k, v2 in dict(case, tree=tree).items() if k != "meta_name" or (ti == 0 and v2 is not None)}
             # a batch may mix piece lengths and versions: per-torrent overrides
             sub["P"] = tree.get("P", sub["P"])
@@ -411,7 +415,7 @@ def run_rebuild(case):
                 sp = case.get("dest_spelling")
                 if sp and not case.get("dest_dot"):
                     base = os.path.dirname(dest)
-                    dest_arg = os.path.join(base, "destlink") if sp == "symlink" else os.path.join(base, "metas", "..", "dest")
+                    dest_arg = os.path.join(base, "destlink") if sp == "symlink" else os.path.join(base, mname, "..", "dest")
                 if case.get("search_spelling") and not case.get("file_arg") and not case.get("nested_search"):
                     base = os.path.dirname(sarg[0])
                     sarg[0] = (os.path.join(base, "searchlink") if case["search_spelling"] == "symlink"
@@ -458,7 +462,7 @@ def run_rebuild(case):
                 return "E"
             if top.startswith("search") or top in snames:
                 return "S"
-            if top == "metas":
+            if top == mname:
                 return "M"
             return "E"
         changed = [r for r in set(before) | set(after) if before.get(r) != after.get(r)]
